@@ -10,7 +10,7 @@ Oracle: copy rule + rc // 1000 + independent re-decode of the dumped answer.
 from typing import List
 
 from vf.driver import Q
-from vf.h import P, reached, note, lib_errors, ref_decode_msgs, admit
+from vf.h import P, reached, note, lib_errors, ref_avp, ref_msg
 
 from bromelia.bromelia import decorate_answer
 from bromelia.avps import (SessionIdAVP, ResultCodeAVP, ExperimentalResultAVP, ExperimentalResultCodeAVP, VendorIdAVP,
@@ -49,13 +49,19 @@ def _pair(kind, sid, rc, with_exp, req_sid):
         ans = CEA(origin_host="srv", origin_realm="r", host_ip_address="10.0.0.2", result_code=rc.to_bytes(4, "big"))
     elif kind == "ulx":
         from bromelia.lib.etsi_3gpp_s6a import ULR, ULA
-        req = ULR(session_id=sid, origin_host="cli", origin_realm="r", destination_realm="d", user_name="1",
+        # typed constructors are slow under tracing: build with a concrete Session-Id, then install the
+        # (symbolic) one through the public data setter - decorate_answer only reads request.session_id_avp.data
+        req = ULR(session_id=b"c", origin_host="cli", origin_realm="r", destination_realm="d", user_name="1",
                   visited_plmn_id=b"\x00\x01\x02")
+        req.session_id_avp.data = sid
+        req.refresh()
         ans = ULA(session_id=b"placeholder", origin_host="srv", origin_realm="r", result_code=rc.to_bytes(4, "big"))
     elif kind == "stx":
         from bromelia.messages import STR, STA
-        req = STR(session_id=sid, origin_host="cli", origin_realm="r", destination_realm="d",
+        req = STR(session_id=b"c", origin_host="cli", origin_realm="r", destination_realm="d",
                   auth_application_id=bytes.fromhex("01000023"), termination_cause=bytes.fromhex("00000001"))
+        req.session_id_avp.data = sid
+        req.refresh()
         ans = STA(session_id=b"placeholder", origin_host="srv", origin_realm="r", result_code=rc.to_bytes(4, "big"))
     else:
         raise KeyError(kind)
@@ -64,14 +70,27 @@ def _pair(kind, sid, rc, with_exp, req_sid):
     return req, ans
 
 
-def decorate(app: int, hbh: int, e2e: int, sid: bytes, rc: int, a_hbh: int, a_e2e: int, e_in: bool) -> bool:
+def decorate_ids(app: int, hbh: int, e2e: int, rc: int, a_hbh: int, a_e2e: int, e_in: bool) -> bool:
     """
     pre: 0 <= app < 2**32 and 0 <= hbh < 2**32 and 0 <= e2e < 2**32 and 0 <= a_hbh < 2**32 and 0 <= a_e2e < 2**32
-    pre: len(sid) == P["L"]
     pre: 0 <= rc < 2**32 and rc % 1000 != 0
-    pre: admit(e_in=e_in, rc=rc)
     post: _
     """
+    # identifiers / Result-Code / incoming E bit symbolic, Session-Id content concrete
+    return _decorate(app, hbh, e2e, bytes(range(65, 65 + P["L"])), rc, a_hbh, a_e2e, e_in)
+
+
+def decorate_sid(sid: bytes, rc: int, e_in: bool) -> bool:
+    """
+    pre: len(sid) == P["L"]
+    pre: 0 <= rc < 2**32 and rc % 1000 != 0
+    post: _
+    """
+    # Session-Id content / Result-Code / incoming E bit symbolic, identifiers concrete
+    return _decorate(16777251, 0x01020304, 0xfffefdfc, sid, rc, 7, 9, e_in)
+
+
+def _decorate(app, hbh, e2e, sid, rc, a_hbh, a_e2e, e_in):
     req_sid = P["req_sid"]
     with_exp = P["exp"]
     req, ans = _pair(P["kind"], sid, rc, with_exp, req_sid)
@@ -99,14 +118,22 @@ def decorate(app: int, hbh: int, e2e: int, sid: bytes, rc: int, a_hbh: int, a_e2
     ok = ok and out.header.is_error() == want_err and not out.header.is_request()
     wire = out.dump()
     ok = ok and out.get_length() == len(wire) and len(wire) % 4 == 0
-    hdr, avps = ref_decode_msgs(wire)[0]
-    codes = [c for c, _, _, _ in avps]
+    # independent re-encoding of the answer's content with the reference encoder (one bytes equality; decoding a
+    # symbolic buffer in a loop made every comparison a solver query)
+    content = []
+    for a in out.avps:
+        data = a.data
+        if a.get_code() == 263 and has_sid:
+            ok = ok and a is out.session_id_avp
+            data = sid                      # what the statement requires, not what the object holds
+        content.append(ref_avp(a.get_code(), a.get_flags(), a.get_vendor_id(), data))
+    codes = [a.get_code() for a in out.avps]
+    expected = ref_msg(1, out.header.get_flags(), out.header.get_command_code(), app, hbh, e2e, content)
+    ok = ok and wire == expected
     if has_sid:
-        got = [d for c, _, _, d in avps if c == 263]
-        ok = ok and got == [sid] and out.session_id_avp.data == sid
+        ok = ok and codes.count(263) == 1
     ok = ok and not (268 in codes and 297 in codes) and not (out.has_avp("result_code_avp") and out.has_avp("experimental_result_avp"))
     ok = ok and (268 in codes) == (not with_exp) and (297 in codes) == with_exp
-    ok = ok and hdr["length"] == len(wire) and hdr["app"] == app and hdr["hbh"] == hbh and hdr["e2e"] == e2e
     return ok
 
 
@@ -119,11 +146,16 @@ def queries(tier, seed):
         has_sid_opts = [False] if kind == "cex" else ([True, False] if kind in ("generic", "message") else [True])
         for req_sid in has_sid_opts:
             for exp in (False, True):
-                for L in (Ls if (req_sid and (kind == "generic" or tier != "quick")) else [Ls[1 if req_sid else 0]]):
-                    qs.append(Q(f"decorate/{kind}/sid{int(req_sid)}/exp{int(exp)}/L{L}", "decorate",
-                                {"kind": kind, "req_sid": req_sid, "exp": exp, "L": L}, cto=t, pto=t,
-                                what=f"{kind} pair, Session-Id {'of ' + str(L) + ' symbolic bytes' if req_sid else 'absent'}, "
-                                     f"Experimental-Result {'present' if exp else 'absent'}; ids, Result-Code, incoming E bit symbolic"))
+                prm = {"kind": kind, "req_sid": req_sid, "exp": exp, "L": 3}
+                qs.append(Q(f"ids/{kind}/sid{int(req_sid)}/exp{int(exp)}", "decorate_ids", prm, cto=t, pto=t,
+                            what=f"{kind} pair, Session-Id {'present' if req_sid else 'absent'}, Experimental-Result "
+                                 f"{'present' if exp else 'absent'}: all ids, all Result-Codes, incoming E bit symbolic"))
+                if not req_sid:
+                    continue
+                for L in (Ls if (kind == "generic" or tier != "quick") else [2]):
+                    prm = {"kind": kind, "req_sid": True, "exp": exp, "L": L}
+                    qs.append(Q(f"sid/{kind}/exp{int(exp)}/L{L}", "decorate_sid", prm, cto=t, pto=t,
+                                what=f"{kind} pair, Session-Id of {L} symbolic bytes, all Result-Codes, incoming E bit symbolic"))
     return qs
 
 
